@@ -216,14 +216,26 @@ def run(ctx):
     # repeated tests of one local are followed along each path, everything else is left open
     from ..pathsim import Sim
 
+    def builds_connector(node, c):
+        """auth.<X>Connector(...), or v(...) where every definition of the local v that reaches the call is auth.<X>Connector or None
+        (a connector class taken out of a table of supported plugins)"""
+        cn_ = call_name(c) or ''
+        if cn_.startswith('auth.') and cn_.endswith('Connector'):
+            return True
+        if isinstance(c.func, ast.Name):
+            vals_ = list(ard.values(node, c.func.id))
+            classes_ = [v for v in vals_ if isinstance(v, ast.AST) and (dotted(v) or '').startswith('auth.') and (dotted(v) or '').endswith('Connector')]
+            others_ = [v for v in vals_ if v not in classes_ and not (isinstance(v, ast.Constant) and v.value is None)]
+            return bool(classes_) and not others_
+        return False
+
     def mark_plugin(sim, node, env):
         for c in calls_at(node):
-            cn_ = call_name(c) or ''
-            if cn_.startswith('auth.') and cn_.endswith('Connector'):
+            if builds_connector(node, c):
                 env['#plugin'] = ('c', True)
     sim = Sim(ag, hook=mark_plugin)
     ret_nodes = [pn for pn, lab in ag.exit.pred]
-    n_plugin_sites = sum(1 for n in ag.nodes for c in calls_at(n) if (call_name(c) or '').startswith('auth.') and (call_name(c) or '').endswith('Connector'))
+    n_plugin_sites = sum(1 for n in ag.nodes for c in calls_at(n) if builds_connector(n, c))
     ctx.count('plugin_construction_sites', n_plugin_sites, 1)
     cn_returns_after_plugin = set()
     for stop, lab, env in sim.run([ag.entry], ret_nodes):
@@ -256,7 +268,9 @@ def run(ctx):
                 # a connector kept in a per-session memo table (self.<table>[url] = auth.<X>Connector(url), table created empty by this session) is the connector it was built as
                 memo_reads = [x for x in rv if session_connector_memo(sc, af, ard, x)]
                 rv = [x for x in rv if x not in memo_reads]
-                plug = [x for x in rv if isinstance(x, ast.Call) and (call_name(x) or '').startswith('auth.')]
+                recv_def_nodes = [d_[2] for d_ in ard.reaching(ard.g.nodes[[d for d in ard.reaching(pn, v.id)][0][2].id], recv.id)] if isinstance(recv, ast.Name) else []
+                plug = [x for x in rv if isinstance(x, ast.Call) and ((call_name(x) or '').startswith('auth.')
+                                                                      or any(dn_ is not None and builds_connector(dn_, x) for dn_ in recv_def_nodes))]
                 first = c.args[0] if c.args else None
                 for k in c.keywords:
                     if k.arg == 'connection_certificate':
